@@ -58,6 +58,9 @@ def strat2d(tier):
     # mostly small grids; a quarter of the cases have one long axis (up to 300 cells: counts that come out of float arithmetic go wrong at sparse sizes)
     dims = st.one_of(st.tuples(st.integers(1, nmax), st.integers(1, nmax)), st.tuples(st.integers(1, nmax), st.integers(1, nmax)), st.tuples(st.integers(1, nmax), st.integers(1, nmax)),
                      st.tuples(st.integers(13, 300), st.integers(1, 6)), st.tuples(st.integers(1, 6), st.integers(13, 300)))
+    # one case in sixteen is a large grid (10^4 .. 10^5 cells and more faces than cells: index tables in a compact integer type overflow there)
+    large = st.one_of(st.tuples(st.integers(90, 360), st.integers(90, 360)), st.tuples(st.integers(8, 40), st.integers(700, 3000)), st.tuples(st.integers(700, 3000), st.integers(8, 40)))
+    dims = st.one_of(*([dims] * 15 + [large]))
     return st.builds(lambda d, lx, ly, c: dict(nx=d[0], ny=d[1], lx=lx, ly=ly, const=c), dims, st.one_of(gen.logf(-2, 2), gen.logf(-9, 6)), st.one_of(gen.logf(-2, 2), gen.logf(-9, 6)), gen.sfloat(-3, 2))
 
 
@@ -237,7 +240,7 @@ def check2d(case):
             "queries-read-only", "vol() / centers() changed after the mesh was queried")
     for t in tags:
         require(np.asarray(m.index_of_bc(t)).tolist() == geo[t], "queries-read-only", "index_of_bc(%s) changed at the second call" % t)
-    labels = ["nx=ny" if nx == ny else "nx!=ny", "min-dim:%d" % min(nx, ny, 3)]
+    labels = ["nx=ny" if nx == ny else "nx!=ny", "min-dim:%d" % min(nx, ny, 3), "cells:" + ("<1e3" if nx * ny < 1000 else "1e3-3e4" if nx * ny < 30000 else ">=3e4")]
     return dict(nontrivial=(nx != ny or lx != ly), labels=labels)
 
 
